@@ -6,3 +6,6 @@ from pyvc.registry import bounded, observation
 for pid in ("C10", "C11", "C12", "C14"):
     bounded(pid, "milp_capture", "bounded/milp_capture.py")
 bounded("C19", "loaders", "bounded/loaders.py")
+bounded("C17", "graphs", "bounded/graphs.py")
+for pid in ("C01", "C02", "C03", "C05", "C06", "C08", "C09", "C12"):
+    bounded(pid, "worlds", "bounded/worlds.py")
